@@ -92,7 +92,12 @@ def run(replay=None):
         for s in fs:
             toks, _ = render.substitute(s, lits=grammar.STD_LITS)
             inputs.append(('expression', ' '.join(toks)))
-    for tb in TIME_POOL:
+    # full-precision and random sub-second / large bounds ("time bounds of any magnitude")
+    pool = list(TIME_POOL) + ['0.2579690924717717 s', '0.3333333333333333 s', '0.1234567890123 s', '123456.789 ms', '0.007 s', '1.7e-5 s']
+    for _ in range(400 if thorough else 80):
+        pool.append('%r s' % rnd.choice([rnd.random(), rnd.random() * 10, rnd.uniform(0, 0.01), float(rnd.randrange(1, 10 ** 6)) / 1000.0]))
+        pool.append('%r ms' % rnd.choice([rnd.random() * 1000, float(rnd.randrange(1, 10 ** 6)) / 7.0]))
+    for tb in pool:
         inputs.append(('property', 'globally: some a within ' + tb))
         inputs.append(('property', 'after b {x > 0}: a causes c {y = 2} within ' + tb))
     inputs += EXTRA
